@@ -37,10 +37,21 @@ def run_module(mod, repo, verif, timeout=900):
                    RUST_BACKTRACE='0')
         cmd = ['cargo', 'test', '--offline', '--lib', '--no-default-features', '--features', FEATURES,
                mod['filter'], '--', '--test-threads', '4']
-        p = subprocess.run(cmd, cwd=scratch, env=env, stdout=subprocess.PIPE, stderr=subprocess.STDOUT, text=True, timeout=timeout)
+        # one cargo build+run at a time in the shared target directory: the test binary's name does not depend on
+        # the scratch path, so a concurrent check could otherwise replace it between build and run
+        import fcntl
+        os.makedirs(os.path.join(verif, '.cache'), exist_ok=True)
+        with open(os.path.join(verif, '.cache', 'cargo-test.lock'), 'w') as lk:
+            fcntl.flock(lk, fcntl.LOCK_EX)
+            p = subprocess.run(cmd, cwd=scratch, env=env, stdout=subprocess.PIPE, stderr=subprocess.STDOUT, text=True, timeout=timeout)
         out = p.stdout
         if 'test result:' not in out:
             return False, [], out[-3000:]
+        # the binary that ran must be the one built from this scratch copy: every registered test has to show up
+        ran_tests = set(t.split('::')[-1] for t in re.findall(r'^test (\S+) \.\.\. (?:ok|FAILED)', out, re.M))
+        missing = [t for t in mod.get('tests', {}) if t not in ran_tests]
+        if missing or not ran_tests:
+            return False, [], 'registered tests did not run: %s\n' % ', '.join(missing) + out[-2500:]
         fails = []
         for mm in re.finditer(r"thread '([^']+)'[^\n]*panicked at ([^\n]*):\n([^\n]*)", out):
             fails.append((mm.group(1).split('::')[-1], mm.group(3).strip()[:600], mm.group(2)))
